@@ -19,7 +19,7 @@ TRUSTED_BASE = [
 
 def finish(pid, P, tier, seed, ev, reported, known, t0):
     cov = ev['coverage']
-    cov.setdefault('trusted_base', TRUSTED_BASE + P.get('trusted_extra', []))
+    cov.setdefault('trusted_base', P.get('trusted_base') or (TRUSTED_BASE + P.get('trusted_extra', [])))
     if 'obligations' in cov:
         fns = cov.get('functions_under_contract', [])
         cov['samples'] = [f['key'] + '  (' + f['src'] + ')' for f in fns[:6]] or ['(no function-level samples)']
